@@ -27,6 +27,18 @@ impl<'c> Block<'c> {
         match self.compression_method {
             CompressionMethod::None => Ok(Cow::from(self.src)),
             CompressionMethod::Gzip => {
+                // The uncompressed size is validated before it is used to allocate the output
+                // buffer: DEFLATE has a maximum compression ratio of 1032:1 (_zlib Technical
+                // Details_, "Maximum Compression Factor").
+                const MAX_COMPRESSION_RATIO: usize = 1032;
+
+                if self.uncompressed_size > self.src.len().saturating_mul(MAX_COMPRESSION_RATIO) {
+                    return Err(io::Error::new(
+                        io::ErrorKind::InvalidData,
+                        "invalid block uncompressed size",
+                    ));
+                }
+
                 let mut dst = vec![0; self.uncompressed_size];
                 gzip::decode(self.src, &mut dst)?;
                 Ok(Cow::from(dst))
@@ -124,6 +136,27 @@ fn validate_content_type(actual: ContentType, expected: ContentType) -> io::Resu
 #[cfg(test)]
 mod tests {
     use super::*;
+
+    #[test]
+    fn test_decode_with_gzip_and_an_invalid_uncompressed_size() {
+        let block = Block {
+            compression_method: CompressionMethod::Gzip,
+            content_type: ContentType::ExternalData,
+            content_id: 1,
+            uncompressed_size: 1 << 30,
+            src: &[
+                0x1f, 0x8b, 0x08, 0x00, 0x00, 0x00, 0x00, 0x00, 0x00, 0xff, // header
+                0x03, 0x00, // DEFLATE stream (empty)
+                0x00, 0x00, 0x00, 0x00, // CRC32
+                0x00, 0x00, 0x00, 0x00, // ISIZE
+            ],
+        };
+
+        assert!(matches!(
+            block.decode(),
+            Err(e) if e.kind() == io::ErrorKind::InvalidData
+        ));
+    }
 
     #[test]
     fn test_read_block() -> io::Result<()> {
